@@ -122,7 +122,7 @@ class SubInterp:
                 if isinstance(tgt.elts[0], ast.Name):
                     env[tgt.elts[0].id] = ("OTHER",)
         elif (
-            isinstance(it, ast.Call) and dotted(it.func) == "zip" and it.args and not it.keywords
+            isinstance(it, ast.Call) and dotted(it.func) == "zip" and it.args and all(k.arg == "strict" for k in it.keywords)
             and isinstance(tgt, ast.Tuple) and len(tgt.elts) == len(it.args)
         ):
             # zip walks its arguments in step (stopping at the shortest): the
@@ -232,7 +232,7 @@ class SubInterp:
             # step and stops at the shortest, so the component drawn from a
             # sub-list yields elements of it, in order, each at most once
             if (
-                isinstance(g.iter, ast.Call) and dotted(g.iter.func) == "zip" and g.iter.args and not g.iter.keywords
+                isinstance(g.iter, ast.Call) and dotted(g.iter.func) == "zip" and g.iter.args and all(k.arg == "strict" for k in g.iter.keywords)
                 and isinstance(g.target, ast.Tuple) and len(g.target.elts) == len(g.iter.args) and isinstance(e.elt, ast.Name)
             ):
                 vals = [self.eval(a, env) for a in g.iter.args]
